@@ -44,7 +44,8 @@ class Body(with_metaclass(HTTPSemantic, IFile)):
 
 	@property
 	def generator(self) -> bool:
-		return isinstance(self.fd, (GeneratorType, type(iter([]))))
+		# every one-shot iterator (map, filter, itertools.chain, iter(tuple), ...) must be buffered like a generator
+		return isinstance(self.fd, (GeneratorType, type(iter([])))) or (hasattr(self.fd, '__next__') and not self.fileable)
 
 	@property
 	def encoding(self):
